@@ -7,6 +7,7 @@ UNITS = [
          text_rewrites=[("E5m", "query::js_path(", "js_path(", 1)],
          ensures=[
              ("parse_err", "parsed(path@) is None ==> r is Err"),
+             ("nodes", "parsed(path@) matches Some(q) ==> r matches Ok(v) && ms(qnodes(v@)) == ms(rfc_query(q, self))"),
              ("nodelist", "parsed(path@) matches Some(q) ==> r matches Ok(v) && (segs_exact(q.segments@, true) ==> qnodes(v@) == rfc_query(q, self))"),
          ]),
     Unit(name="JsonPath::query_only_path", file=L, impl=T, fn="query_only_path", order=75, serves=["C03"],
